@@ -109,7 +109,7 @@ def signature_of(case, impl):
     if kind == "hang" and res["depth"] >= DEEP:
         return {"reader": rd, "class": "superlinear-time-deep-nesting"}, res
     cls = head[1] if kind == "crash" and len(head) > 1 else kind
-    frame = head[2] if kind == "crash" and len(head) > 2 else "-"
+    frame = head[2] if kind == "crash" and len(head) > 2 else (head[1] if kind == "leak" and len(head) > 1 else "-")
     return {"reader": rd, "class": kind + ":" + cls if kind == "crash" else kind, "phase": phase, "frame": frame}, res
 
 
@@ -205,7 +205,7 @@ def report_fuzz(ctx, exe, stream, dis, seen):
     groups = {}
     for c, e, g in runtime:
         key = " ".join(e.split(" ")[:3])
-        if key not in groups or len(c) < len(groups[key][0]):
+        if key not in groups or len(c) < len(groups[key][0]):  # shortest input per (class, frame)
             groups[key] = (c, e, g)
     for key, (c, e, g) in sorted(groups.items(), key=lambda kv: len(kv[1][0]))[:6]:
         kind = e.split(" ")[0]
@@ -403,15 +403,17 @@ def run_witnesses(ctx, exe_rel, quick, seen):
         if th:
             p = r["stack_overflow_probe"]
             report({"reader": rd, "class": "stack-overflow-deep-nesting"},
-                   "%s reader overflows the 8 MiB stack on %d nested collections (%d bytes of input; %d levels are still read)" % (rd, th, p["len"], th - 1),
-                   {"family": fam, "param": r["stack_overflow_replay_depth"], "reader": p.get("reader"), "len": p["len"], "impl": p["class"] + " " + p.get("detail", ""), "threshold_depth": th,
+                   "%s reader overflows the 8 MiB stack from about %d nested collections on (%d levels = %d bytes of input: %s)" %
+                   (rd, th, p["param"], p["len"], p["class"] + " " + p.get("detail", "")),
+                   {"family": fam, "param": p["param"], "reader": p.get("reader"), "len": p["len"], "impl": p["class"] + " " + p.get("detail", ""), "threshold_depth": th,
                     "theorem": "depth_unbounded / wkt_depth_unbounded: the model needs recursion depth proportional to the input length"})
         ov = r.get("time_budget_exceeded_from_depth")
         if ov:
             t = [x for x in r["reader_time"] if x["depth"] == ov][-1]
+            top = (th - 1) if th else r["max_depth_within_1MiB"]
             report({"reader": rd, "class": "superlinear-time-deep-nesting"},
                    "%s reader: CPU time of the read call grows quadratically with the nesting depth (%d levels, %d bytes: %.2f s, linear budget %.2f s)" % (rd, ov, t["len"], t["reader_cpu_s"], t["budget_s"]),
-                   {"family": fam, "param": ov, "len": t["len"], "impl": "reader cpu %.3f s" % t["reader_cpu_s"], "budget_s": t["budget_s"], "timings": r["reader_time"],
+                   {"family": fam, "param": min(top, ov * 5 // 4), "threshold_depth": ov, "len": t["len"], "impl": "reader cpu %.3f s" % t["reader_cpu_s"], "budget_s": t["budget_s"], "timings": r["reader_time"],
                     "cause": "GeometryCollection's constructor calls setSRID(getSRID()), which walks the whole subtree: d nested collections cost d^2/2 visits (and WKBReader::readGeometry calls setSRID again at every level)"})
         m = r["at_moderate_depth"]
         if m["class"] in ("crash", "oom", "leak") and not (th and m["param"] >= th):
@@ -497,7 +499,7 @@ def run(ctx):
     pool = ThreadPoolExecutor(max_workers=1)
     wit_future = pool.submit(run_witnesses, ctx, exe_r, quick, seen)
     shards = max(4, min(verif.NPROC - 2, 14))
-    n = 16000 if quick else 300000
+    n = 16000 if quick else 100000
     maxlen = 65536 if quick else MIB
     corr = {}
     for stream in STREAMS:
